@@ -333,6 +333,12 @@ func validateKeyPurposes(pubKey document.PublicKey) error {
 		return fmt.Errorf("if '%s' key is specified, it must contain at least one purpose", document.PurposesProperty)
 	}
 
+	if raw, ok := pubKey[document.PurposesProperty].([]interface{}); ok {
+		if err := allEntriesRead(len(pubKey.Purpose()), raw, document.PurposesProperty, "strings"); err != nil {
+			return err
+		}
+	}
+
 	if len(pubKey.Purpose()) > len(allowedPurposes) {
 		return fmt.Errorf("public key purpose exceeds maximum length: %d", len(allowedPurposes))
 	}
@@ -361,6 +367,16 @@ func validateIds(ids []string) error {
 		if err := validateID(id); err != nil {
 			return err
 		}
+	}
+
+	return nil
+}
+
+// allEntriesRead: the typed accessors skip list entries of another JSON type, and an entry that is skipped is an
+// entry that is not validated (and, for a replace, still installed in the document).
+func allEntriesRead(read int, arr []interface{}, what, kind string) error {
+	if read != len(arr) {
+		return fmt.Errorf("%s must be %s", what, kind)
 	}
 
 	return nil
